@@ -258,9 +258,7 @@ func RunC15(tier string) int {
 		if nontrivial {
 			run.Nontrivial(a.Spec.Shape() + "|" + strings.Join(names, ","))
 		}
-		if i < 2 {
-			run.Sample(map[string]any{"case": i, "shape": a.Spec.Shape(), "history_minimal": b.Log})
-		}
+		run.Sample(map[string]any{"case": i, "shape": a.Spec.Shape(), "history_minimal": b.Log})
 	})
 	run.Assume("under injected cache faults the executed sets may legitimately differ (a dependency whose outputs are irretrievable must be re-run under minimal, while under all they are already in the workspace): only exit status, dependency views and bytes are judged there")
 	return run.Finish()
